@@ -631,40 +631,59 @@ Proof.
   cbn [N.eqb Pos.eqb]. reflexivity.
 Qed.
 
-Lemma parse_fti_raptor_agrees hel c : wf_ext (XVar 64 hel c) = true ->
+(* D32: for FEC id 1 the code uses the RaptorQ-style figure below, not the RFC 5053 one.
+   What can be said of the code as it is: its parser reads exactly this figure ... *)
+Definition flute_raptor_layout (L rs T Z Nn Al pad : N) : list field :=
+  [(L, 40); (rs, 8); (T, 16); (Z, 16); (Nn, 8); (Al, 8); (pad, 16)].
+Definition flute_raptor_widths : list N := [40; 8; 16; 16; 8; 8; 16].
+Definition dec_raptor_flute (e : rfc_ext) : option (N * N * N * N * N) :=
+  match e with
+  | XVar _ hel c =>
+    if negb (hel * 32 =? 16 + sum_widths flute_raptor_widths) then None
+    else match unpack flute_raptor_widths c with
+         | [L; _; T; Z; Nn; Al; _] => Some (L, T, Z, Nn, Al)
+         | _ => None
+         end
+  | _ => None
+  end.
+Definition model_of_raptor_flute (x : N * N * N * N * N) : res (oti * N) :=
+  let '(L, T, Z, Nn, Al) := x in
+  raptor_checks T Z Al
+    (Ok (mk_oti Raptor 0 ((div_ceil_u (div_ceil_u L Z) T) mod U32) T 0 (Some (SSRaptor Z Nn Al)), L)).
+
+Lemma parse_fti_raptor_agrees_flute hel c : wf_ext (XVar 64 hel c) = true ->
   parse_fti_raptor (ext_bytes (XVar 64 hel c))
-  = match dec_fti 1 (XVar 64 hel c) with Some v => model_of_fti v | None => Err end.
+  = match dec_raptor_flute (XVar 64 hel c) with Some x => model_of_raptor_flute x | None => Err end.
 Proof.
   intros W. destruct (ext_as_number 64 hel c W) as (E & Ln & EX & HY).
   destruct (wf_ext_var _ _ _ W) as (_ & _ & _ & D & _).
   set (X := be_decode (ext_bytes (XVar 64 hel c))) in *.
-  unfold parse_fti_raptor, dec_fti. rewrite (length_eqb_16 hel _ Ln).
-  change (fti_widths 1) with (Some [48; 16; 16; 16; 8; 8]). cbn [sum_widths].
+  unfold parse_fti_raptor, dec_raptor_flute, flute_raptor_widths. rewrite (length_eqb_16 hel _ Ln).
+  cbn [sum_widths].
   destruct (N.eqb_spec hel 4) as [->|Hh].
-  2:{ cbn [negb]. destruct (N.eqb_spec (hel * 32) (16 + (48 + (16 + (16 + (16 + (8 + (8 + 0)))))))); [lia|reflexivity]. }
-  cbn [negb]. change (4 * 32 =? 16 + (48 + (16 + (16 + (16 + (8 + (8 + 0))))))) with true. cbn [negb].
+  2:{ cbn [negb]. destruct (N.eqb_spec (hel * 32) (16 + (40 + (8 + (16 + (16 + (8 + (8 + (16 + 0))))))))); [lia|reflexivity]. }
+  cbn [negb]. change (4 * 32 =? 16 + (40 + (8 + (16 + (16 + (8 + (8 + (16 + 0)))))))) with true. cbn [negb].
   assert (Lc : length c = 14%nat) by lia. rewrite Lc in *.
   rewrite E. change (N.to_nat (4 * 4)) with 16%nat.
   to_bits 16%nat.
   rfc_bits X (64 * 256 + 4) (8 * N.of_nat 14) c EX HY.
-  cbn [N.eqb Pos.eqb]. reflexivity.
+  reflexivity.
 Qed.
 
-(* D30: the unfixed Raptor codec (RaptorQ figure) disagrees with the RFC 5053 figure *)
-Lemma raptor_fti_refuted_unfixed :
+(* ... and the RFC 5053 figure is read differently (witness) *)
+Lemma raptor_fti_d32_witness :
   let v := FtiRaptor 1000 0 16 2 1 4 in
-  wf_ext (x_fti v) = true /\ dec_fti 1 (x_fti v) = Some v
-  /\ parse_fti_raptor (ext_bytes (x_fti v)) = model_of_fti v
-  /\ parse_fti_raptor_unfixed (ext_bytes (x_fti v)) <> model_of_fti v.
+  wf_ext (x_fti v) = true /\ dec_fti 1 (x_fti v) = Some v /\ fti_acceptable v = true
+  /\ parse_fti_raptor (ext_bytes (x_fti v)) <> model_of_fti v.
 Proof. vm_compute. repeat split; try reflexivity. discriminate. Qed.
 
-Theorem parse_fti_agrees f hel c : wf_ext (XVar 64 hel c) = true ->
+Theorem parse_fti_agrees f hel c : f <> Raptor -> wf_ext (XVar 64 hel c) = true ->
   parse_fti f (ext_bytes (XVar 64 hel c))
   = match dec_fti (fec_code f) (XVar 64 hel c) with Some v => model_of_fti v | None => Err end.
 Proof.
-  intros W. destruct f; cbn [parse_fti fec_code].
+  intros Hf W. destruct f; cbn [parse_fti fec_code].
   - apply parse_fti_nocode_agrees; assumption.
-  - apply parse_fti_raptor_agrees; assumption.
+  - contradiction.
   - apply parse_fti_rs2m_agrees; assumption.
   - apply parse_fti_rs28_agrees; assumption.
   - apply parse_fti_raptorq_agrees; assumption.
@@ -859,36 +878,63 @@ Proof.
   rewrite !be_encode_1 by lia. reflexivity.
 Qed.
 
-Lemma add_fti_raptor_is_rfc data o L z n al : o_ss o = Some (SSRaptor z n al) ->
-  all_fit (fti_layout (FtiRaptor L 0 (o_E o) z n al)) = true ->
-  add_fti_raptor data o L = push_ext data (ext_bytes (x_fti (FtiRaptor L 0 (o_E o) z n al))) 4.
+Lemma add_fti_raptor_is_flute_figure data o L z n al : o_ss o = Some (SSRaptor z n al) ->
+  all_fit (flute_raptor_layout L 0 (o_E o) z n al 0) = true ->
+  add_fti_raptor data o L
+  = push_ext data (ext_bytes (XVar 64 4 (pack (flute_raptor_layout L 0 (o_E o) z n al 0)))) 4.
 Proof.
-  intros Hss Hf. cbn [fti_layout] in Hf.
+  intros Hss Hf. unfold flute_raptor_layout in *.
   apply fits_cons in Hf as [HL Hf]. apply fits_cons in Hf as [_ Hf]. apply fits_cons in Hf as [HE Hf].
   apply fits_cons in Hf as [Hz Hf]. apply fits_cons in Hf as [Hn Hf]. apply fits_cons in Hf as [Ha _].
-  unfold add_fti_raptor. rewrite Hss. f_equal. rewrite x_fti_bytes. cbn [fti_layout].
-  change ((16 + bits_of [(L, 48); (0, 16); (o_E o, 16); (z, 16); (n, 8); (al, 8)]) / 32) with 4.
-  change [(L, 48); (0, 16); (o_E o, 16); (z, 16); (n, 8); (al, 8)]
-    with [(L, 8 * N.of_nat 6); (0, 8 * N.of_nat 2); (o_E o, 8 * N.of_nat 2); (z, 8 * N.of_nat 2);
-          (n, 8 * N.of_nat 1); (al, 8 * N.of_nat 1)].
+  unfold add_fti_raptor. rewrite Hss. f_equal. rewrite ext_bytes_var by lia.
+  change [(L, 40); (0, 8); (o_E o, 16); (z, 16); (n, 8); (al, 8); (0, 16)]
+    with [(L, 8 * N.of_nat 5); (0, 8 * N.of_nat 1); (o_E o, 8 * N.of_nat 2); (z, 8 * N.of_nat 2);
+          (n, 8 * N.of_nat 1); (al, 8 * N.of_nat 1); (0, 8 * N.of_nat 2)].
   rewrite !pack_cons_bytes by reflexivity. change (pack []) with (@nil N). rewrite app_nil_r.
-  change (fti_header16 4) with [64; 4]. f_equal. unfold TWO64. pow_norm.
+  change (fti_header16 4) with [64; 4]. change (64 :: 4 :: ?x) with ([64; 4] ++ x).
+  cbn [app]. do 2 f_equal. unfold TWO64. pow_norm.
+  change 65535 with (2 ^ 16 - 1). rewrite land_low. pow_norm. rewrite (N.mod_small (o_E o)) by assumption.
   rewrite N.mod_small by lia.
-  change (be_encode 8 (L * 65536)) with (be_encode (6 + 2) (L * 65536)).
-  rewrite (be_split 6 2 (L * 65536) L 0) by (change (256 ^ N.of_nat 2) with 65536; lia).
+  rewrite (lor_disjoint (L * 16777216) (o_E o) 24 L) by (pow_norm; lia).
+  change (be_encode 8 (L * 16777216 + o_E o)) with (be_encode (5 + 3) (L * 16777216 + o_E o)).
+  rewrite (be_split 5 3 _ L (o_E o)) by (change (256 ^ N.of_nat 3) with 16777216; lia).
+  change 3%nat with (1 + 2)%nat.
+  rewrite (be_split 1 2 (o_E o) 0 (o_E o)) by (change (256 ^ N.of_nat 2) with 65536; lia).
   rewrite <- !app_assoc.
   rewrite !be_encode_1 by lia. reflexivity.
 Qed.
 
+(* flute's Raptor EXT_FTI round-trips with itself: what add_fti writes for L < 2^40, E, Z < 2^16,
+   N, Al < 2^8 is read back by get_fti to the same values (subject to the receiver's checks) *)
+Theorem raptor_fti_self_roundtrip data o L z n al : o_ss o = Some (SSRaptor z n al) ->
+  L < 2 ^ 40 -> o_E o < 2 ^ 16 -> z < 2 ^ 16 -> n < 2 ^ 8 -> al < 2 ^ 8 ->
+  exists ext, add_fti_raptor data o L = push_ext data ext 4
+              /\ parse_fti_raptor ext = model_of_raptor_flute (L, o_E o, z, n, al).
+Proof.
+  intros Hss HL HE Hz Hn Ha.
+  assert (Hf : all_fit (flute_raptor_layout L 0 (o_E o) z n al 0) = true).
+  { unfold flute_raptor_layout, all_fit. cbn [forallb]. unfold fits. cbn [fst snd].
+    repeat (apply andb_true_iff; split); try reflexivity; apply N.ltb_lt; assumption. }
+  set (c := pack (flute_raptor_layout L 0 (o_E o) z n al 0)).
+  assert (W : wf_ext (XVar 64 4 c) = true).
+  { cbn [wf_ext]. unfold c. rewrite pack_length, all_bytes_pack. reflexivity. }
+  exists (ext_bytes (XVar 64 4 c)). split.
+  - apply add_fti_raptor_is_flute_figure; assumption.
+  - rewrite (parse_fti_raptor_agrees_flute 4 c W). unfold dec_raptor_flute.
+    change (negb (4 * 32 =? 16 + sum_widths flute_raptor_widths)) with false. cbv iota.
+    unfold c. change flute_raptor_widths with (map snd (flute_raptor_layout L 0 (o_E o) z n al 0)).
+    rewrite (unpack_pack _ Hf eq_refl). reflexivity.
+Qed.
+
 (* all schemes: the EXT_FTI flute writes is the RFC figure of the scheme *)
-Theorem add_fti_is_rfc data o L v : fti_of_oti o L = Some v -> all_fit (fti_layout v) = true ->
+Theorem add_fti_is_rfc data o L v : o_fec o <> Raptor ->
+  fti_of_oti o L = Some v -> all_fit (fti_layout v) = true ->
   add_fti data o L = push_ext data (ext_bytes (x_fti v)) ((16 + bits_of (fti_layout v)) / 32).
 Proof.
-  unfold fti_of_oti, add_fti. intros Hv Hf.
+  unfold fti_of_oti, add_fti. intros Hnr Hv Hf.
   destruct (o_fec o) eqn:Ef.
   - injection Hv as <-. apply add_fti_nocode_is_rfc. assumption.
-  - destruct (o_ss o) as [[| |z n al]|] eqn:Es; try discriminate. injection Hv as <-.
-    apply add_fti_raptor_is_rfc; assumption.
+  - contradiction.
   - destruct (o_ss o) as [[m g| |]|] eqn:Es; try discriminate. injection Hv as <-.
     apply add_fti_rs2m_is_rfc; assumption.
   - injection Hv as <-. apply add_fti_rs28_is_rfc. assumption.
@@ -1116,12 +1162,16 @@ Proof.
 Qed.
 
 Theorem new_alc_pkt_is_rfc o cci tsi p prof now c s o' h v fs :
+  known_d32_build o p = false ->
   in_range o cci tsi p now v fs ->
   lct_flags cci tsi (k_toi p) = (c, s, o', h) ->
   new_alc_pkt o cci tsi p prof now = Ok (rfc_alc_encode (flute_pkt o cci tsi p prof now c s o' h v fs))
   /\ wf_pkt (flute_pkt o cci tsi p prof now c s o' h v fs) = true.
 Proof.
-  intros R Efl.
+  intros Hk0 R Efl.
+  assert (Hk : has_fti o p = true -> o_fec o <> Raptor).
+  { intros Hh Hr. unfold known_d32_build in Hk0. rewrite Hr, Hh in Hk0. discriminate. }
+  clear Hk0.
   destruct (lct_push_is_rfc5651_proof [] 0 cci tsi (k_toi p) (fec_code (o_fec o)) (k_close_object p) false
               c s o' h (ir_cci _ _ _ _ _ _ _ R) (ir_tsi _ _ _ _ _ _ _ R) (ir_toi _ _ _ _ _ _ _ R)
               ltac:(lia) (fec_code_lt _) Efl) as (Epush & Hfit & Hhl).
@@ -1160,7 +1210,7 @@ Proof.
            rewrite push_ext_state by (assumption || lia)); cbn [rbind];
       try (rewrite push_cenc_is_rfc by lia; rewrite push_ext_state by (assumption || lia)); cbn [rbind];
       try (rewrite push_sct_is_rfc by auto; rewrite push_ext_state by (assumption || lia)); cbn [rbind];
-      try (destruct (Ifti eq_refl) as (Ev & Hv); rewrite (add_fti_is_rfc _ o _ v Ev Hv), fti_words;
+      try (destruct (Ifti eq_refl) as (Ev & Hv); rewrite (add_fti_is_rfc _ o _ v (Hk eq_refl) Ev Hv), fti_words;
            rewrite push_ext_state by (assumption || lia)); cbn [rbind];
       cbn [app map concat exts_words profile_version];
       change (ext_words (x_fdt _ _)) with 1; change (ext_words (x_cenc _ _)) with 1;
@@ -1307,13 +1357,13 @@ Proof.
   destruct (N.eqb_spec m 0) as [->|]; [|reflexivity]. exfalso. apply Hw. reflexivity.
 Qed.
 
-Theorem spec_build_holds o cci tsi p prof now :
+Theorem spec_build_holds o cci tsi p prof now : known_d32_build o p = false ->
   P_C06_build o cci tsi p prof now (new_alc_pkt o cci tsi p prof now) = true.
 Proof.
-  unfold P_C06_build. destruct (build_in_range o cci tsi p now) eqn:Er; [|reflexivity]. cbn [negb].
+  intros Hk. unfold P_C06_build. destruct (build_in_range o cci tsi p now) eqn:Er; [|reflexivity]. cbn [negb].
   destruct (build_in_range_spec _ _ _ _ _ Er) as (v & fs & R).
   destruct (lct_flags cci tsi (k_toi p)) as [[[c s] o'] h] eqn:Efl.
-  destruct (new_alc_pkt_is_rfc o cci tsi p prof now c s o' h v fs R Efl) as (Eb & W).
+  destruct (new_alc_pkt_is_rfc o cci tsi p prof now c s o' h v fs Hk R Efl) as (Eb & W).
   rewrite Eb, (rfc_decode_encode _ _ W).
   unfold flute_pkt, mk_rfc_pkt. cbn [rp_lct rp_exts rp_pid rp_payload].
   set (x := flute_rfc_lct 0 cci tsi (k_toi p) (fec_code (o_fec o)) (k_close_object p) false c s o' h).
@@ -1538,9 +1588,10 @@ Proof. destruct b; reflexivity. Qed.
 
 (* (C06 parse direction) every packet of the RFC encoder that the property covers is parsed to
    the values it carries *)
-Theorem spec_parse_holds m p : P_C06_parse m p (observe_parse m (rfc_alc_encode p)) = true.
+Theorem spec_parse_holds m p : known_d32_parse p = false ->
+  P_C06_parse m p (observe_parse m (rfc_alc_encode p)) = true.
 Proof.
-  unfold P_C06_parse. destruct (wf_pkt p && parse_demand m p) eqn:E; [|reflexivity]. cbn [negb].
+  intros Hk32. unfold P_C06_parse. destruct (wf_pkt p && parse_demand m p) eqn:E; [|reflexivity]. cbn [negb].
   apply andb_true_iff in E as [W D].
   unfold parse_demand in D. rewrite !andb_true_iff in D. destruct D as ((((Dv & Dcp) & Dfti) & Dbits) & Dpid).
   destruct (wf_pkt_spec p W) as (Hfit & Hes & Hhl & Hpf & Hpa & Hpl).
@@ -1569,7 +1620,9 @@ Proof.
     destruct (find_ext 64 es) as [e|] eqn:F64; cbn [option_map omap].
     - destruct (find_ext_wf _ _ _ Hes F64) as (We & He).
       destruct (wf_var_shape e We ltac:(lia)) as (het & hel & c & ->). cbn in He. subst het.
-      rewrite (parse_fti_agrees f hel c We), <- Ecp.
+      assert (Hnr : f <> Raptor).
+      { intros ->. unfold known_d32_parse in Hk32. fold x es in Hk32. rewrite F64, Ecp in Hk32. discriminate. }
+      rewrite (parse_fti_agrees f hel c Hnr We), <- Ecp.
       destruct (dec_fti (r_cp x) (XVar 64 hel c)) as [v|] eqn:Edec; [|discriminate].
       destruct (model_of_fti_ok v m Dfti) as (o & L & Em & Hm & Hc & Hrm).
       rewrite Em. cbn [rbind]. exists (Some (o, L)). split; [reflexivity|].
@@ -1691,15 +1744,29 @@ Proof.
   - apply N.eqb_eq. rewrite pid_block_length_bytes, Ecp. lia.
 Qed.
 
+Lemma flute_pkt_not_d32 o cci tsi p prof now c s o' h v fs : known_d32_build o p = false ->
+  known_d32_parse (flute_pkt o cci tsi p prof now c s o' h v fs) = false.
+Proof.
+  unfold known_d32_build, known_d32_parse, flute_pkt, mk_rfc_pkt. cbn [rp_lct rp_exts set_hdr_len r_cp flute_rfc_lct].
+  intros Hk.
+  destruct (find_flute_exts (has_fdt p) (has_cenc p) (k_sct p) (has_fti o p)
+              (x_fdt (profile_version prof) (match k_fdt_id p with Some id => id | None => 0 end))
+              (x_cenc (k_cenc p) 0) (x_time (flute_time now)) (x_fti v) eq_refl eq_refl eq_refl eq_refl)
+    as (_ & _ & _ & F64).
+  fold (flute_exts o p prof now v) in F64. rewrite F64.
+  destruct (o_fec o); cbn [fec_code N.eqb Pos.eqb andb]; try reflexivity. rewrite Hk. reflexivity.
+Qed.
+
 Theorem alc_pkt_roundtrip_proof m o cci tsi p prof now c s o' h v fs :
+  known_d32_build o p = false ->
   in_range o cci tsi p now v fs ->
   lct_flags cci tsi (k_toi p) = (c, s, o', h) ->
   exists bytes, new_alc_pkt o cci tsi p prof now = Ok bytes
                 /\ P_C06_parse m (flute_pkt o cci tsi p prof now c s o' h v fs) (observe_parse m bytes) = true
                 /\ P_C06_build o cci tsi p prof now (Ok bytes) = true.
 Proof.
-  intros R E. destruct (new_alc_pkt_is_rfc o cci tsi p prof now c s o' h v fs R E) as (Eb & W).
+  intros Hk R E. destruct (new_alc_pkt_is_rfc o cci tsi p prof now c s o' h v fs Hk R E) as (Eb & W).
   exists (rfc_alc_encode (flute_pkt o cci tsi p prof now c s o' h v fs)).
-  split; [assumption|]. split; [apply spec_parse_holds|].
-  rewrite <- Eb. apply spec_build_holds.
+  split; [assumption|]. split; [apply spec_parse_holds; apply flute_pkt_not_d32; assumption|].
+  rewrite <- Eb. apply spec_build_holds. assumption.
 Qed.
